@@ -24,6 +24,9 @@ BUILD = {
     "rule.cast.fan": "cond = Value.is_instance(int, dict, list)\nrule = Rule((MapValue(),), cond, cast={str: int})\nobjs = (cond, rule)",
     "rule.cast.deep": "cond = Value.equal_to(True)\nrule = Rule(('deep', 'flag'), cond, cast={str: valida.casting.cast_string_to_bool})\nobjs = (cond, rule)",
     "rule.cast.deep.fan": "cond = Value.is_instance(int)\nrule = Rule(('deep', 'ns', ListValue()), cond, cast={str: int})\nobjs = (cond, rule)",
+    "schema.cast.containers": "r1 = Rule((MapValue(),), Value.truthy() | Value.falsy(), cast={str: int})\nr2 = Rule(('deep', 'ns', ListValue()), Value.is_instance(int, str), cast={str: int})\nr3 = Rule((MapValue(), 'flag'), Value.is_instance(bool), cast={str: valida.casting.cast_string_to_bool})\nsch = Schema([r1, r2, r3])\nobjs = (r1, r2, r3, sch)",
+    "schema.extended": "base = Rule(('a',), Value.truthy() | Value.falsy())\nsch = Schema([base])\nextra = Schema([Rule(('flag',), Value.equal_to(True), cast={str: valida.casting.cast_string_to_bool}), Rule(('ns', ListValue()), Value.is_instance(int), cast={str: int})])\nsch.add_schema(extra, DataPath('deep'))\nobjs = (base, extra, sch)",
+    "schema.extended.edit": "base = Rule(('a',), Value.truthy() | Value.falsy())\nsch = Schema([base])\nsch.rules.append(Rule(('deep', 'flag'), Value.equal_to(True), cast={str: valida.casting.cast_string_to_bool}))\nobjs = (base, sch)",
     "rule.patharg": "ref = DataPath('a', 'b')\ncond = Value.equal_to(ref)\nrule = Rule(('l', 0), cond)\nobjs = (ref, cond, rule)",
     "schema": "c1 = Value.greater_than(t)\nc2 = Value.is_instance(dict)\np1 = DataPath('a', 'c', ListValue())\nr1 = Rule(p1, c1)\nr2 = Rule(('a',), c2)\nr3 = Rule(('l', ListValue()), c1)\nsch = Schema([r1, r2, r3])\nobjs = (c1, c2, p1, r1, r2, r3, sch)",
     "schema.cast": "c1 = Value.equal_to(t)\nc2 = Value.equal_to(True)\nr1 = Rule(('n',), c1, cast={str: int})\nr2 = Rule(('s',), c2, cast={str: valida.casting.cast_string_to_bool})\nr3 = Rule((MapValue(),), Value.truthy() | Value.is_instance(bool))\nsch = Schema([r1, r2, r3])\nobjs = (c1, c2, r1, r2, r3, sch)",
@@ -43,6 +46,9 @@ OPS = {
     "rule.cast.fan": ["objs[-1].test(doc)"],
     "rule.cast.deep": ["objs[-1].test(doc)", "Schema([objs[-1]]).validate(doc)", "objs[-1].test(Data(doc))"],
     "rule.cast.deep.fan": ["objs[-1].test(doc)", "Schema([objs[-1]]).validate(doc)"],
+    "schema.cast.containers": ["objs[-1].validate(doc)"],
+    "schema.extended": ["objs[-1].validate(doc)"],
+    "schema.extended.edit": ["objs[-1].validate(doc)"],
     "rule.patharg": ["objs[-1].test(doc)"],
     "schema": ["objs[-1].validate(doc)", "objs[-1].validate(Data(doc))"],
     "schema.cast": ["objs[-1].validate(doc)"],
@@ -71,13 +77,16 @@ def step_case(bid, n, op, L):
     params = [("t", "int"), ("u1", lt), ("u2", "int"), ("u3", "int")]
     body = f"""
 {build}
-doc = {DOC_DEEP if 'deep' in bid else DOC}
+doc = {DOC_DEEP if ('deep' in bid or 'containers' in bid or 'extended' in bid) else DOC}
 snap = idsnap(*objs)
 dsnap, dids = tx(doc), docids(doc)
 res = {op}
 ok = note('valida objects unchanged', idsnap(*objs) == snap)
 ok = ok and note("caller's document type-exactly unchanged", tx(doc) == dsnap)
 ok = ok and note("caller's containers not rebound", docids(doc) == dids)
+for name in ('cast_data',):
+    if hasattr(res, name):
+        ok = ok and note('the result does not share containers with the document', disjoint_containers(getattr(res, name), doc))
 return ok
 """
     return mk_case(f"c08.step.{bid}.{n}", params, body, pre=[f"BU({L}, t, u1, u2, u3)"], stubs=["sym_repr"])
